@@ -388,6 +388,54 @@ def run(chk, replay=None):
                     chk.tie_break(f"correspondence C22.VScript ({kind} parser) on {t[:120]!r}: implementation {got[:300]}, model {want[:300]}", {key: t.hex()})
     elif okv:
         chk.tie_break("model evaluation: wrong number of answers (version-script parser)", {"items": len(vtexts) + len(etexts), "answers": len(vflat) + len(eflat)})
+    # ---- the round-trip theorem's printer against the real parser: structured scripts are printed BY THE MODEL
+    #      (print_script, evaluated in Coq) and parsed by wild; the result must be the structure the theorem states
+    RT_IMPORTS = VS_IMPORTS + ("From WV Require Import C22.VRound.\n"
+                               "Definition SV (n : list N) (p : N) (g l : list (list N)) : sversion := {| sname := n; sparent := match p with 0 => None | _ => Some (N.to_nat (p - 1)) end; sglob := g; sloc := l |}.\n"
+                               "Definition rt (vs : list sversion) := (print_script vs, (1, map ev (map to_version vs))).\n")
+    NAME_B = "abcxyzABZ019_."
+    rts = []
+    for _ in range(40 if chk.tier == "quick" else 400):
+        nv = rng.randrange(0, 5)
+        names, vs_ = [], []
+        for i in range(nv):
+            while True:
+                nm = "".join(rng.choice(NAME_B) for _ in range(rng.randrange(1, 7)))
+                if nm not in names:
+                    break
+
+            def pat():
+                while True:
+                    t_ = "".join(rng.choice(NAME_B + "**??") for _ in range(rng.randrange(1, 7)))
+                    if "**" not in t_:
+                        return t_
+            par = rng.randrange(1, i + 1) if i and rng.random() < 0.6 else 0
+            vs_.append((nm, par, [pat() for _ in range(rng.randrange(0, 4))], [pat() for _ in range(rng.randrange(0, 3))]))
+            names.append(nm)
+        rts.append(vs_)
+
+    def cl(t_):
+        return "[" + "; ".join(str(b) for b in t_.encode()) + "]"
+    rt_items = ["rt [" + "; ".join(f"SV {cl(n)} {p_} [{'; '.join(cl(x) for x in g)}] [{'; '.join(cl(x) for x in l)}]" for n, p_, g, l in vs_) + "]" for vs_ in rts]
+    rc_, o = coq_eval("c22rt", "Eval vm_compute in [\n" + ";\n".join(rt_items) + "].\n", RT_IMPORTS, timeout=600)
+    stats["round_trip"] = {"scripts": 0, "versions": 0, "patterns": 0, "mismatch": 0}
+    if rc_ != 0:
+        chk.tie_break("model evaluation failed (coqc, print_script)", o[-1500:])
+    else:
+        rtres = parse_coq_value(o)
+        texts_rt = [bytes(t_) for t_, _ in rtres]
+        impl_rt = run_impl(wvh, "c22", ["vs " + t_.hex() for t_ in texts_rt])
+        for vs_, (t_, want_v), im in zip(rts, rtres, impl_rt):
+            st = stats["round_trip"]
+            st["scripts"] += 1
+            st["versions"] += len(vs_)
+            st["patterns"] += sum(len(g) + len(l) for _, _, g, l in vs_)
+            want = render_vs(want_v)
+            got = "E" if im.startswith("E ") else im
+            if got != want:
+                st["mismatch"] += 1
+                stats["model_mismatch"] += 1
+                chk.tie_break(f"correspondence C22.VRound.print_script: wild parses the printed script {bytes(t_)[:160]!r} as {got[:300]}, the round-trip theorem says {want[:300]}", {"vscript_hex": bytes(t_).hex()})
     # ---- @file expansion: model vs implementation on graphs of argument files (cycles, chains around the depth limit)
     RSP_IMPORTS = ("From Coq Require Import NArith List Bool. Import ListNotations.\nFrom WV Require Import C22.RspFiles.\nOpen Scope N_scope.\n"
                    "Fixpoint of_list (l : list (N * list arg)) : fsys := match l with [] => fun _ => None | (k, v) :: r => fun f => if f =? k then Some v else of_list r f end.\n"
@@ -534,7 +582,7 @@ def run(chk, replay=None):
             j = json.load(open(replay))["replay"]["job"]
             jobs = [(j["kind"], j["file"], bytes.fromhex(j["data_hex"]) if j.get("data_hex") is not None else None, j.get("argv"))]
 
-        def one(ij):
+        def one(ij, limit=20):
             i, (kind, fname, data, argv) = ij
             w = f"{d}/w{i}"
             os.makedirs(w)
@@ -549,7 +597,7 @@ def run(chk, replay=None):
                     "response-file": ["a.o", "b.o", "@args.rsp"],
                     "arguments": ((argv or []) + ["a.o", "b.o"]) if (len(argv or []) % 2) else (["a.o"] + (argv or []) + ["b.o"])}[kind]
             try:
-                p = subprocess.run([wild] + base + ["-o", "out"], cwd=w, stdout=subprocess.PIPE, stderr=subprocess.STDOUT, timeout=20)
+                p = subprocess.run([wild] + base + ["-o", "out"], cwd=w, stdout=subprocess.PIPE, stderr=subprocess.STDOUT, timeout=limit)
                 rc, out = p.returncode, p.stdout.decode("utf-8", "replace")
             except subprocess.TimeoutExpired:
                 rc, out = "timeout", ""
@@ -557,6 +605,11 @@ def run(chk, replay=None):
             return kind, fname, data, argv, rc, out
         with ThreadPoolExecutor(max_workers=8) as ex:
             results = list(ex.map(one, list(enumerate(jobs))))
+        # a job that ran out of time is run again on its own with a generous limit: a loaded machine is not a hang
+        for k_, r_ in enumerate(results):
+            if r_[4] == "timeout":
+                stats["reruns_after_timeout"] = stats.get("reruns_after_timeout", 0) + 1
+                results[k_] = one((len(jobs) + k_, jobs[k_]), limit=180)
         for kind, fname, data, argv, rc, out in results:
             stats["runs"] += 1
             stats["by_input"][kind] = stats["by_input"].get(kind, 0) + 1
@@ -566,7 +619,7 @@ def run(chk, replay=None):
                 rep["job"]["data_len"] = len(data)
             crash = None
             if rc == "timeout":
-                crash = "does not terminate within 20 s"
+                crash = "does not terminate within 20 s"          # (and not within 180 s when run again alone)
             elif "memory allocation of" in out:
                 m = re.search(r"memory allocation of (\d+) bytes failed", out)
                 crash = f"aborts: memory allocation of {m.group(1) if m else '?'} bytes failed"
